@@ -68,18 +68,18 @@ type c20Env struct {
 	m   *reloadManager
 	log *logrus.Logger
 
-	clock      atomic.Int64
-	nextID     atomic.Uint64
-	busyWrites atomic.Int64
-	begins     atomic.Int64
-	ends       atomic.Int64
-	peakSupp   atomic.Int32
-	negSupp    atomic.Int32
-	relFloor   atomic.Int64
-	cycleIdx   atomic.Int64
-	admitted   atomic.Int64
-	stop       atomic.Bool
-	inQfull    atomic.Bool
+	clock                                                       atomic.Int64
+	nextID                                                      atomic.Uint64
+	busyWrites                                                  atomic.Int64
+	begins                                                      atomic.Int64
+	ends                                                        atomic.Int64
+	peakSupp                                                    atomic.Int32
+	negSupp                                                     atomic.Int32
+	relFloor                                                    atomic.Int64
+	cycleIdx                                                    atomic.Int64
+	admitted                                                    atomic.Int64
+	stop                                                        atomic.Bool
+	inQfull                                                     atomic.Bool
 	hookCtr, hookHandoff, hookRefused, hookRelease, lostWakeups atomic.Uint64
 
 	mu        sync.Mutex
@@ -153,6 +153,11 @@ func c20InstallTaps() func() {
 		return code, msg, nil
 	}
 	beginReloadProxyFailureSuppression = func() {
+		// the caller may be descheduled between its previous statement and this call: whatever it
+		// published before must not let anybody run ahead of the scope that is about to be opened
+		if e := c20Cur.Load(); e != nil {
+			c20Perturb(e)
+		}
 		oldBegin()
 		v := verifC20Suppression.Load()
 		if e := c20Cur.Load(); e != nil {
@@ -166,6 +171,9 @@ func c20InstallTaps() func() {
 		}
 	}
 	endReloadProxyFailureSuppression = func() {
+		if e := c20Cur.Load(); e != nil && !e.inQfull.Load() {
+			c20Perturb(e)
+		}
 		oldEnd()
 		v := verifC20Suppression.Load()
 		e := c20Cur.Load()
